@@ -2,7 +2,10 @@ pub use crate::config::HookType;
 use crate::logs::HasLogger;
 use crate::template::render_template;
 use acme_common::error::Error;
+#[cfg(not(feature = "breard_r_acmed_verif"))]
 use async_process::{Command, Stdio};
+#[cfg(feature = "breard_r_acmed_verif")]
+use crate::verif::process::{Command, Stdio};
 use futures::AsyncWriteExt;
 use serde::Serialize;
 use std::collections::hash_map::Iter;
